@@ -520,3 +520,14 @@ impl Cartesian<'_> {
         }
     }
 }
+
+/// Verification hook (feature `verif_hooks`): exposes the densified pose list with flag bits.
+#[cfg(feature = "verif_hooks")]
+impl Cartesian<'_> {
+    pub fn verif_intermediate_poses(&self, land: &Pose, steps: &Vec<Pose>, park: &Pose) -> Vec<(Pose, u32)> {
+        self.with_intermediate_poses(land, steps, park)
+            .into_iter()
+            .map(|p| (p.pose, p.flags.bits()))
+            .collect()
+    }
+}
